@@ -140,6 +140,10 @@ pub fn gen_c11(out: &mut impl Write, seed: u64, thorough: bool) {
             let be = ["v1", "v2", "v3", "v3lc", "v4", "v4s"][(i / 40) % 6];
             writeln!(out, "unseal.val {be} {v} {c}").unwrap();
         }
+        if i % 200 == 0 {
+            let be = ["v1", "v2", "v3", "v3lc", "v4", "v4s"][(i / 200) % 6];
+            writeln!(out, "o.zst {be} {c}").unwrap();
+        }
     }
 }
 
@@ -195,7 +199,7 @@ pub fn gen_c14(out: &mut impl Write, seed: u64, thorough: bool) {
     for l in &longs {
         for i in [0usize, 1, 2, 6] {
             let c = (0..7).map(|k| if k == i { hex(l.as_bytes()) } else if k == 6 { hex(b"id") } else { "~".to_string() }).collect::<Vec<_>>().join(",");
-            writeln!(out, "claims.enc {c}").unwrap();
+            writeln!(out, "claims.enc {c}").unwrap(); writeln!(out, "claims.json {c}").unwrap();
         }
     }
     strs.push(longs[3].clone()); strs.push(longs[4].clone()); strs.push(longs[14].clone());
@@ -205,7 +209,7 @@ pub fn gen_c14(out: &mut impl Write, seed: u64, thorough: bool) {
             if (3..=5).contains(&i) { r.pick(&tsamples).to_string() } else { hex(r.pick(&strs).as_bytes()) }
         };
         let c = (0..7).map(|i| f(i, &mut r)).collect::<Vec<_>>().join(",");
-        writeln!(out, "claims.enc {c}").unwrap();
+        writeln!(out, "claims.enc {c}").unwrap(); writeln!(out, "claims.json {c}").unwrap();
     }
     // the Json<T> wrapper and the claims decoder against plain serde_json on raw texts: complete values followed by more bytes,
     // surrounding whitespace, truncations, non-object values, empty input, deep nesting, big numbers
@@ -262,7 +266,7 @@ pub fn gen_c14(out: &mut impl Write, seed: u64, thorough: bool) {
             }
         };
         let c = format!("{},{},{},{},{},{},{}", s(&mut r), s(&mut r), s(&mut r), t(&mut r), t(&mut r), t(&mut r), s(&mut r));
-        writeln!(out, "claims.enc {c}").unwrap();
+        writeln!(out, "claims.enc {c}").unwrap(); writeln!(out, "claims.json {c}").unwrap();
     }
     // claims.dec: member lists
     let keys = ["iss", "sub", "aud", "exp", "nbf", "iat", "jti", "x", "Iss", "iss ", "is", "issx", "", "exp\u{0}", "\u{e9}", "ISS", "custom-claim"];
